@@ -91,8 +91,8 @@ package composite
 //@ frame fresh-only
 //@ site builtin.mapupdate($mp, $k, $v) as write-detail
 //@   where $mp == out
-//@   assert [C09:detail-stored-under-its-configured-name] $k == cfg.Name
-//@   assert [C09:secret-key-detail-comes-from-the-configured-key] cfg.Type == "FromConnectionSecretKey" ==> (cfg.FromConnectionSecretKey != nil && $v == data[*cfg.FromConnectionSecretKey])
+//@   assert [C09:detail-stored-for-a-config-and-from-its-key] exists j :: 0 <= j && j < len(old(cfg)) && $k == old(cfg)[j].Name
+//@        && (old(cfg)[j].Type == "FromConnectionSecretKey" ==> (old(cfg)[j].FromConnectionSecretKey != nil && $v == data[*old(cfg)[j].FromConnectionSecretKey]))
 //@ loop range cfg
 //@   invariant [C09:keys-are-config-names] forall k:Str :: k in out ==> (exists j :: 0 <= j && j < done && old(cfg)[j].Name == k)
 //@   invariant [C09:configs-so-far-valid] forall j :: 0 <= j && j < done ==> (old(cfg)[j].Name != ""
